@@ -619,5 +619,266 @@ theorem reload_invalid {m : M} {g : Nat} {c : Cfg} (hg : Good m) (hgen : m.cur.g
   · intro a ha; rw [h2] at ha; rw [h3]; exact hg.notBusy a ha
   · intro x hx; rw [h4] at hx; rw [h5]; exact hg.connIds x hx
 
+open Casket.ReloadSpec
+
+/-! ### naming of sockets -/
+
+theorem pos_append_some {l : List Nat} {x i : Nat} (l' : List Nat) (h : pos l x = some i) : pos (l ++ l') x = some i := by
+  induction l generalizing i with
+  | nil => simp [pos] at h
+  | cons y ys ih =>
+    simp only [List.cons_append, pos] at h ⊢
+    split
+    · rename_i e; simp [e] at h; exact congrArg some h
+    · rename_i e
+      simp only [e, if_false] at h
+      cases hp : pos ys x with
+      | none => simp [hp] at h
+      | some j => simp [hp] at h; rw [ih hp]; simp [h]
+
+theorem pos_append_none {l : List Nat} {x : Nat} (h : pos l x = none) : pos (l ++ [x]) x = some l.length := by
+  induction l with
+  | nil => simp [pos]
+  | cons y ys ih =>
+    simp only [List.cons_append, pos] at h ⊢
+    split
+    · rename_i e; simp [e] at h
+    · rename_i e
+      simp only [e, if_false] at h
+      cases hp : pos ys x with
+      | none => rw [ih hp]; simp
+      | some j => simp [hp] at h
+
+theorem pos_lt {l : List Nat} {x i : Nat} (h : pos l x = some i) : x ∈ l := by
+  induction l generalizing i with
+  | nil => simp [pos] at h
+  | cons y ys ih =>
+    simp only [pos] at h
+    split at h
+    · rename_i e; simp [e]
+    · cases hp : pos ys x with
+      | none => simp [hp] at h
+      | some j => exact List.mem_cons_of_mem _ (ih hp)
+
+/-- `k` is the name under which the socket of address `a` is known in `seen` (0 = the address has no socket) -/
+def NamedIn (seen : List Nat) (m : M) (a k : Nat) : Prop :=
+  (m.fds a = 0 ∧ k = 0) ∨ (m.fds a ≠ 0 ∧ ∃ i, pos seen (m.sock a) = some i ∧ k = i + 1)
+
+theorem named_rename {seen : List Nat} {m : M} {a k : Nat} (h : NamedIn seen m a k) : rename seen m a = (seen, k) := by
+  rcases h with ⟨h0, rfl⟩ | ⟨h0, i, hi, rfl⟩
+  · simp [rename, h0]
+  · simp [rename, h0, hi]
+
+theorem rename_named (seen : List Nat) (m : M) (a : Nat) :
+    NamedIn (rename seen m a).1 m a (rename seen m a).2 ∧ ∃ l, (rename seen m a).1 = seen ++ l ∧ ∀ x ∈ l, x = m.sock a := by
+  by_cases h0 : m.fds a = 0
+  · simp only [rename, h0, if_true]
+    exact ⟨Or.inl ⟨h0, rfl⟩, [], by simp, by simp⟩
+  · cases hp : pos seen (m.sock a) with
+    | some i =>
+      simp only [rename, h0, if_false, hp]
+      exact ⟨Or.inr ⟨h0, i, hp, rfl⟩, [], by simp, by simp⟩
+    | none =>
+      simp only [rename, h0, if_false, hp]
+      exact ⟨Or.inr ⟨h0, seen.length, pos_append_none hp, rfl⟩, [m.sock a], rfl, by simp⟩
+
+theorem named_ext {seen : List Nat} {m : M} {a k : Nat} (l : List Nat) (h : NamedIn seen m a k) : NamedIn (seen ++ l) m a k := by
+  rcases h with h | ⟨h0, i, hi, hk⟩
+  · exact Or.inl h
+  · exact Or.inr ⟨h0, i, pos_append_some l hi, hk⟩
+
+theorem named_congr {seen : List Nat} {m m' : M} {a k : Nat} (hf : m'.fds a = m.fds a) (hs : m'.sock a = m.sock a)
+    (h : NamedIn seen m a k) : NamedIn seen m' a k := by
+  unfold NamedIn at h ⊢
+  rw [hf, hs]; exact h
+
+theorem named_ne_zero {seen : List Nat} {m : M} {a k : Nat} (h : NamedIn seen m a k) (hf : m.fds a ≠ 0) : k ≠ 0 := by
+  rcases h with ⟨h0, _⟩ | ⟨_, i, _, rfl⟩
+  · exact absurd h0 hf
+  · omega
+
+theorem named_zero {seen : List Nat} {m : M} {a k : Nat} (h : NamedIn seen m a k) (hf : m.fds a = 0) : k = 0 := by
+  rcases h with ⟨_, hk⟩ | ⟨h0, _⟩
+  · exact hk
+  · exact absurd hf h0
+
+open Casket.ReloadSpec
+
+theorem setOwner_lt {cs : List Conn} {id g : Nat} (h : ∀ c ∈ cs, c.id < id) : setOwner cs id g = cs := by
+  induction cs with
+  | nil => rfl
+  | cons c rest ih =>
+    have hc := h c List.mem_cons_self
+    have hne : ¬ c.id = id := by omega
+    simp only [setOwner, List.map_cons, hne, if_false]
+    exact congrArg _ (ih (fun x hx => h x (List.mem_cons_of_mem _ hx)))
+
+theorem setAnswered_lt {cs : List Conn} {id : Nat} (h : ∀ c ∈ cs, c.id < id) : setAnswered cs id = cs := by
+  induction cs with
+  | nil => rfl
+  | cons c rest ih =>
+    have hc := h c List.mem_cons_self
+    have hne : ¬ c.id = id := by omega
+    simp only [setAnswered, List.map_cons, hne, if_false]
+    exact congrArg _ (ih (fun x hx => h x (List.mem_cons_of_mem _ hx)))
+
+/-- what a probe leaves alone -/
+structure ProbeFrame (m m' : M) : Prop where
+  busy : m'.busy = m.busy
+  cur : m'.cur = m.cur
+  fds : m'.fds = m.fds
+  sock : m'.sock = m.sock
+  nextSock : m'.nextSock = m.nextSock
+
+theorem probeFrame_trans {a b c : M} (h1 : ProbeFrame a b) (h2 : ProbeFrame b c) : ProbeFrame a c :=
+  ⟨h2.busy.trans h1.busy, h2.cur.trans h1.cur, h2.fds.trans h1.fds, h2.sock.trans h1.sock, h2.nextSock.trans h1.nextSock⟩
+
+/-- a fresh connection to an address the settled current instance serves is answered by it -/
+theorem probe_held {m : M} {a : Nat} (hg : Good m) (ha : m.cur.holds a = true) :
+    (probe m a).2 = toString m.cur.gen ∧ Good (probe m a).1 ∧ ProbeFrame m (probe m a).1 := by
+  have hna : m.new.accepts a = false := (hg.inv.inactive (by simp [hg.idle, active])).2 a
+  have hf : m.fds a = 1 := by rw [good_fds hg a, ha]; rfl
+  have hacc : m.cur.accepts a = true := by rw [hg.accepts a, ha]
+  have hq := hg.queue a
+  have e : (probe m a).1 = { m with queue := upd (upd m.queue a [m.nextConn]) a [], nextConn := m.nextConn + 1, conns := m.conns ++ [{ id := m.nextConn, addr := a, minGen := m.cur.gen, owner := some m.cur.gen, answered := some m.cur.gen }] } := by
+    simp only [probe, hna, Bool.false_eq_true, if_false, run, step, hf, hq, List.nil_append, upd_app, if_true,
+      hacc, Bool.and_true, decide_true, Bool.true_or, Nat.lt_irrefl, gt_iff_lt, Nat.zero_lt_one]
+    simp only [setOwner, setAnswered, List.map_append, List.map_map, List.map_cons, List.map_nil, if_true]
+    have h1 := setOwner_lt (g := m.cur.gen) hg.connIds
+    have h2 := setAnswered_lt hg.connIds
+    simp only [setOwner] at h1
+    simp only [setAnswered] at h2
+    rw [← List.map_map, h1, h2]
+  have hinv : Inv (probe m a).1 := by simp only [probe]; exact inv_run _ hg.inv
+  refine ⟨?_, ?_, ?_⟩
+  · simp only [probe, connAnswer]
+    have e' := e
+    simp only [probe] at e'
+    rw [e']
+    simp
+  · rw [e] at hinv ⊢
+    refine ⟨hinv, hg.idle, hg.holds, hg.accepts, fun x => ?_, hg.notBusy, fun c hc => ?_⟩
+    · show upd (upd m.queue a [m.nextConn]) a [] x = []
+      simp only [upd_app]; split <;> simp [hg.queue]
+    · show c.id < m.nextConn + 1
+      rcases List.mem_append.mp hc with h | h
+      · have := hg.connIds c h; omega
+      · simp only [List.mem_singleton] at h; subst h; exact Nat.lt_succ_self _
+  · rw [e]; exact ⟨rfl, rfl, rfl, rfl, rfl⟩
+
+open Casket.ReloadSpec
+
+/-- a fresh connection to an address nobody serves is refused -/
+theorem probe_free {m : M} {a : Nat} (hg : Good m) (ha : m.cur.holds a = false) :
+    (probe m a).2 = "-" ∧ Good (probe m a).1 ∧ ProbeFrame m (probe m a).1 := by
+  have hna : m.new.accepts a = false := (hg.inv.inactive (by simp [hg.idle, active])).2 a
+  have hf : m.fds a = 0 := by rw [good_fds hg a, ha]; rfl
+  have hq := hg.queue a
+  have e : (probe m a).1 = { m with events := m.events ++ [Ev.refused a] } := by
+    simp only [probe, hna, Bool.false_eq_true, if_false, run, step, hf, hq, Nat.lt_irrefl, gt_iff_lt]
+    rw [setAnswered_lt hg.connIds]
+  have hinv : Inv (probe m a).1 := by simp only [probe]; exact inv_run _ hg.inv
+  refine ⟨?_, ?_, ?_⟩
+  · simp only [probe, connAnswer]
+    have e' := e
+    simp only [probe] at e'
+    rw [e']
+    simp
+  · rw [e] at hinv ⊢
+    exact ⟨hinv, hg.idle, hg.holds, hg.accepts, hg.queue, hg.notBusy, hg.connIds⟩
+  · rw [e]; exact ⟨rfl, rfl, rfl, rfl, rfl⟩
+
+/-- the answer a fresh connection gets from a settled state -/
+def answerOf (m : M) (a : Nat) : String := if m.cur.holds a = true then toString m.cur.gen else "-"
+
+theorem probe_good {m : M} (a : Nat) (hg : Good m) :
+    (probe m a).2 = answerOf m a ∧ Good (probe m a).1 ∧ ProbeFrame m (probe m a).1 := by
+  cases ha : m.cur.holds a
+  · have := probe_free hg ha; simpa [answerOf, ha] using this
+  · have := probe_held hg ha; simpa [answerOf, ha] using this
+
+/-- the observation made in a settled state -/
+theorem observe_good {m : M} (seen : List Nat) (res : String) (hg : Good m) :
+    (observe seen m res none none).2.2 =
+      { res := res, fd1 := m.fds 1, fd2 := m.fds 2, sk1 := (rename seen m 1).2, sk2 := (rename (rename seen m 1).1 m 2).2,
+        p1 := answerOf m 1, p2 := answerOf m 2, mid := none, str := none } ∧
+    (observe seen m res none none).2.1 = (rename (rename seen m 1).1 m 2).1 ∧
+    Good (observe seen m res none none).1 ∧ ProbeFrame m (observe seen m res none none).1 := by
+  obtain ⟨a1, g1, f1⟩ := probe_good 1 hg
+  obtain ⟨a2, g2, f2⟩ := probe_good 2 g1
+  have hans : answerOf (probe m 1).1 2 = answerOf m 2 := by simp [answerOf, f1.cur]
+  refine ⟨?_, rfl, g2, probeFrame_trans f1 f2⟩
+  simp only [observe, a1, a2, hans]
+
+open Casket.ReloadSpec
+
+theorem named_congr' {seen : List Nat} {m m' : M} {a k : Nat} (hf : m'.fds a = m.fds a)
+    (hs : m.fds a ≠ 0 → m'.sock a = m.sock a) (h : NamedIn seen m a k) : NamedIn seen m' a k := by
+  rcases h with ⟨h0, hk⟩ | ⟨h0, i, hi, hk⟩
+  · exact Or.inl ⟨by rw [hf]; exact h0, hk⟩
+  · exact Or.inr ⟨by rw [hf]; exact h0, i, by rw [hs h0]; exact hi, hk⟩
+
+/-- the judge's ledger agrees with the settled state of the model -/
+structure HRel (busy : List Nat) (m : M) (seen : List Nat) (g : Nat) (led : HLedger) : Prop where
+  good : Good m
+  busyEq : m.busy = busy
+  gen : led.gen = m.cur.gen
+  addrs : led.addrs = m.cur.addrs
+  next : led.next = g
+  lt : m.cur.gen < g
+  fd1 : led.prev.fd1 = m.fds 1
+  fd2 : led.prev.fd2 = m.fds 2
+  p1 : led.prev.p1 = answerOf m 1
+  p2 : led.prev.p2 = answerOf m 2
+  sk1 : NamedIn seen m 1 led.prev.sk1
+  sk2 : NamedIn seen m 2 led.prev.sk2
+  seenLt : ∀ x ∈ seen, x < m.nextSock
+  sockLt : ∀ a, m.sock a < m.nextSock
+
+theorem sockLt_run {m : M} (acts : List Act) (h : ∀ a, m.sock a < m.nextSock) : ∀ a, (run m acts).sock a < (run m acts).nextSock := by
+  intro a
+  have hr := sockRel_run acts m
+  rcases hr.fresh a with e | ⟨_, e⟩
+  · rw [e]; exact Nat.lt_of_lt_of_le (h a) hr.next
+  · exact e
+
+theorem keepsAct_reload {a g : Nat} {m : M} {c : Cfg} (ha : a ∈ c.addrs) :
+    ∀ act ∈ reloadHead g m c ++ [Act.finish], keepsAct a act := by
+  intro act h
+  simp only [reloadHead, List.mem_append, List.mem_cons, List.mem_replicate, List.mem_singleton, List.not_mem_nil, or_false] at h
+  rcases h with ((((rfl | rfl) | ⟨_, rfl⟩) | (rfl | rfl)) | ⟨_, rfl⟩) | rfl <;> simp [keepsAct, ha]
+
+theorem b2n_contains_fd {m : M} (hg : Good m) (a : Nat) : m.fds a = if m.cur.addrs.contains a then 1 else 0 := by
+  rw [good_fds hg a, hg.holds a]; cases m.cur.addrs.contains a <;> rfl
+
+/-- the law of one address after a successful reload -/
+theorem addrLaw_ok {busy : List Nat} {m m1 : M} {seen seen1 : List Nat} {g : Nat} {led : HLedger} {c : Cfg} {a prevSk : Nat}
+    (hg1 : Good m1) (hgen : m1.cur.gen = g) (haddrs : m1.cur.addrs = c.addrs) (hladdrs : led.addrs = m.cur.addrs)
+    (hgm : Good m) (hprev : NamedIn seen1 m a prevSk)
+    (hsock : a ∈ c.addrs → m.cur.holds a = true → m1.sock a = m.sock a) :
+    addrLaw led c g a (m1.fds a) (rename seen1 m1 a).2 prevSk (answerOf m1 a) = none := by
+  have hfd := b2n_contains_fd hg1 a
+  rw [haddrs] at hfd
+  unfold addrLaw
+  cases hc : c.addrs.contains a
+  · -- the address is not served any more
+    have hh : m1.cur.holds a = false := by rw [hg1.holds a, haddrs, hc]
+    have hf0 : m1.fds a = 0 := by rw [hfd, hc]; rfl
+    simp [answerOf, hh, hf0, rename]
+  · have hh : m1.cur.holds a = true := by rw [hg1.holds a, haddrs, hc]
+    have hf1 : m1.fds a = 1 := by rw [hfd, hc]; rfl
+    have hne : (rename seen1 m1 a).2 ≠ 0 := named_ne_zero (rename_named seen1 m1 a).1 (by rw [hf1]; decide)
+    simp only [answerOf, hh, if_true, hgen, bne_self_eq_false, Bool.false_eq_true, if_false, hf1]
+    cases hl : led.addrs.contains a
+    · simp [hne]
+    · -- kept: the same socket
+      have hmh : m.cur.holds a = true := by rw [hgm.holds a, ← hladdrs, hl]
+      have hmf : m.fds a = 1 := by rw [good_fds hgm a, hmh]; rfl
+      have hnamed : NamedIn seen1 m1 a prevSk :=
+        named_congr (by rw [hf1, hmf]) (hsock (by simpa using hc) hmh) hprev
+      rw [named_rename hnamed]
+      have : prevSk ≠ 0 := named_ne_zero hprev (by rw [hmf]; decide)
+      simp [this]
+
 
 end Casket.Reload
